@@ -130,7 +130,7 @@ func execC15(t *testing.T, prog *hx.Program, dec *simrt.Decider, verbose bool) *
 		if n == nil {
 			return
 		}
-		if !h.waitFor("cursors-stream", 30*time.Second, func() bool { return n.srv.metadata.GetStream(cursorsStream) != nil }) {
+		if !h.pollFor("cursors-stream", 30*time.Second, func() bool { return n.srv.metadata.GetStream(cursorsStream) != nil }) {
 			h.oc.Trouble = "cursors stream was not created"
 			return
 		}
